@@ -27,6 +27,8 @@ THEOREMS = (["Pedal.Assertions.c07_" + n for n in PROVED] + [
     "Pedal.Assertions.c07_silent_iff_holds",
     "Pedal.Assertions.c07_wrapping_invariant",
     "Pedal.Assertions.c07_negation_exclusive",
+    "Pedal.Assertions.c07_order_negation_exclusive",
+    "Pedal.Assertions.c07_length_negation_exclusive",
     "Pedal.Assertions.c07_error_operand_fails",
     "Pedal.Assertions.c07_tolerance_symmetric",
     "Pedal.Assertions.c07_string_normalisation_symmetric",
@@ -53,7 +55,9 @@ NOTES = [
     "re.search, str() of a non-string operand and the captured output of an execution are parameters of the model "
     "(abstract functions in the theorems, concrete values supplied by the harness per case)",
     "assert_is_instance treats int and float as interchangeable (explicit in the code): the spec relation follows it",
-    "assert_type / assert_not_type (pedal type system) are not modelled in Lean: sampled against an oracle only; "
+    "assert_type / assert_not_type (pedal type system) are not modelled in Lean: sampled against an oracle only (a table "
+    "of value/type-expression pairs incl. nested generics and both spellings, plus the student's own classes given as "
+    "class object, evaluate() proxy and name, each with a raw, proxied and error operand); "
     "assert_has_attr / assert_has_variable / assert_has_function are outside the property's list",
     "the value loop of equality_test's dict branch iterates a set: when a False and a raising comparison are both "
     "present the model answers 'unmodelled'",
@@ -147,7 +151,13 @@ def gen_unary(rng, tier, P):
 
 
 def gen_spelling(rng, tier, P):
-    """the same assertions through the other spellings of the API: operands by keyword, camelCase alias"""
+    """the same assertions through the other spellings of the API: operands by keyword, camelCase alias.
+    First the whole built-in corpus (it tells every assertion from its neighbours) in both spellings, then random."""
+    for case in builtin_corpus():
+        if case["wrap"] in ("rr", "r") and case["desc"]["l"].get("t") != "err" and case["desc"].get("r", {}).get("t") != "err":
+            for sp in ("keyword", "alias"):
+                d = dict(case["desc"], spelling=sp)
+                yield {"a": case["a"], "wrap": case["wrap"], "desc": d}
     n = 900 if tier == "quick" else 30000
     names = [x for x in ac.BINARY + ac.UNARY]
     for k in range(n):
@@ -312,7 +322,7 @@ def sig_of(name, real, want, a, b, wrap):
     else:
         kind = "false-pass" if real == "silent" else "false-fail"
     sig = {"assertion": name, "kind": kind, "left": ac.shape(a), "wrap": wrap}
-    if b is not None:
+    if name not in ac.UNARY:
         sig["right"] = ac.shape(b) if not isinstance(b, ag.ac.rt.Sandbox) else "sandbox"
     return sig
 
@@ -337,27 +347,26 @@ def gen_unit(rng, tier, P):
             else:
                 expected = rng.choice(vals)
             rows.append([j, stored, expected])
-        yield {"rows": rows}
+        yield {"rows": rows, "partial": rng.random() < 0.3}
 
 
 def run_unit(case, P):
-    """real unit_test(): (returned, success_count, total_count, left operands as seen by assert_equal)"""
+    """real unit_test(): (returned, success_count, total_count, left operands as seen by the case assertions).
+    unit_test is called the way instructors call it (default assert function); `partial` switches partial credit on,
+    which must not change the verdict or the counts."""
     sb = ac.get_sandbox()
     sb.data["TABLE"] = {j: P.raw[s] for j, s, _ in case["rows"] if s is not None}
     ac.clear_report()
     seen = []
-    orig = ac.rt.assert_equal
-
-    def spy(left, right, **kw):
-        seen.append(left)
-        return orig(left, right, **kw)
     try:
-        ok = ac.unit_test("table", *[([j], P.raw[e]) for j, _, e in case["rows"]], assert_function=spy)
+        extra = {"partial_credit": True} if case.get("partial") else {}
+        ok = ac.unit_test("table", *[([j], P.raw[e]) for j, _, e in case["rows"]], **extra)
         groups = [f for f in ac.MAIN_REPORT.feedback + ac.MAIN_REPORT.ignored_feedback
                   if type(f).__name__ == "unit_test"]
         if len(groups) != 1:
             return {"error": "found %d unit_test feedbacks" % len(groups)}, seen
         g = groups[0]
+        seen = [f.fields["left"] for f in g.all_feedback]
         return {"passed": bool(ok), "succ": g.fields.get("success_count"), "total": g.fields.get("total_count"),
                 "reported": any(f is g for f in ac.MAIN_REPORT.feedback)}, seen
     except Exception as e:
@@ -400,6 +409,12 @@ TYPE_CASES = [
     ((1, "a"), "tuple[str, int]", False), ((1, "a"), tuple[str, int], False), ({"a": 1}, "dict[str, str]", False),
     ([1], dict, False), ({"a": 1}, list, False), (None, int, False), ("1", int, False), (1, "list[int]", False),
     ({1, 2}, "set[str]", False), ((1, 2), list, False),
+    # nested generics, both spellings of the type, unambiguous cases only (appended: replay files refer to indices)
+    ([[1], [2]], "list[list[int]]", True), ([["a"]], "list[list[int]]", False), ({"a": [1]}, "dict[str, list[int]]", True),
+    ({"a": [1]}, "dict[str, list[str]]", False), ([1, 2], "list", True), ("a", "list[str]", False), ((1, 2), tuple, True),
+    ({1}, set, True), ({1}, list, False), (1.5, int, False), (1, bool, False), (None, "int", False),
+    ({"a": 1}, dict[str, int], True), ({"a": 1}, dict[int, int], False), ([1], list[str], False), (1.5, "float", True),
+    ((1,), "tuple[int]", True), ("", str, True), (0, int, True), ([], "list", True), ("", int, False), (0, str, False),
 ]
 
 
@@ -423,6 +438,42 @@ def run_type_cases():
             for name in ("assert_type", "assert_not_type"):
                 real = ac.run_real(name, ac.call(how), t)
                 out.append((vi, "e", name, real, "fires"))
+    return out
+
+
+def class_type_cases():
+    """assert_type with the student's own classes: (label, value, type expression, conforms, type shape).
+    The class is given as the class object, as the proxy `evaluate('Thing')` returns, and by name."""
+    data = ac.get_sandbox().data
+    thing, other, doc = data["Thing"], data["Other"], data["Documented"]
+    t1, o1, d1 = thing(), other(), doc()
+    rows = []
+    for tw in ("raw", "proxy", "str"):
+        def ty(cls):
+            return cls if tw == "raw" else (ac.proxy_of(cls) if tw == "proxy" else cls.__name__)
+        plain, docd = "class", "class with a docstring"
+        rows += [("Thing() : Thing / " + tw, t1, ty(thing), True, plain),
+                 ("Other() : Thing / " + tw, o1, ty(thing), False, plain),
+                 ("1 : Thing / " + tw, 1, ty(thing), False, plain),
+                 ("None : Thing / " + tw, None, ty(thing), False, plain),
+                 ("Documented() : Documented / " + tw, d1, ty(doc), True, docd),
+                 ("Thing() : Documented / " + tw, t1, ty(doc), False, docd),
+                 ("1 : Documented / " + tw, 1, ty(doc), False, docd)]
+    rows += [("Thing() : int", t1, int, False, "int"), ("Thing() : 'list[int]'", t1, "list[int]", False, "list[...]"),
+             ("[Thing()] : 'list[Thing]'", [t1], "list[Thing]", True, "list[...]"),
+             ("[Other()] : 'list[Thing]'", [o1], "list[Thing]", False, "list[...]"),
+             ("Documented() : int", d1, int, False, "class with a docstring"),
+             ("Documented() : Thing", d1, thing, False, "class with a docstring")]
+    return rows
+
+
+def run_class_type_cases():
+    out = []
+    for label, v, t, conforms, shp in class_type_cases():
+        for w in "rp":
+            a = ac.proxy_of(v) if w == "p" and v is not None else v
+            for name, want in (("assert_type", conforms), ("assert_not_type", not conforms)):
+                out.append((label, w, name, ac.run_real(name, a, t), "silent" if want else "fires", shp))
     return out
 
 
@@ -576,6 +627,19 @@ def builtin_corpus():
         ("assert_regex", "a+", "caat"), ("assert_regex", "(", "caat"), ("assert_not_regex", "z", "caat"),
         ("assert_regex", "1", 1),
     ]
+    # every ordering / length assertion on a smaller, an equal and a larger operand (tells each from its neighbours)
+    for name in ac.ORDER:
+        pairs += [(name, 1, 1), (name, 2, 1), (name, 1, 2), (name, "a", "b"), (name, "b", "b"), (name, {1}, {1}),
+                  (name, {1, 2}, {1}), (name, 1.0, 1), (name, [1], [1, 2])]
+    for name in ac.LENGTH:
+        pairs += [(name, [1], 0), (name, [1], 1), (name, [1], 2), (name, "", 0), (name, {1: 2}, 1)]
+    # one approximately-but-not-exactly equal pair per branch of equality_test, and its near miss
+    for name in ("assert_equal", "assert_not_equal"):
+        pairs += [(name, {"A"}, {"a"}), (name, {near, 5.0}, {1, 5.0}), (name, {far, 5.0}, {1, 5.0}),
+                  (name, [{"A"}], [{"a"}]), (name, ("Ab.", near), ("ab", 1)), (name, ("Ab.", far), ("ab", 1)),
+                  (name, {"a": ["Ab."]}, {"a": ["ab"]}), (name, {"a": {"b": near}}, {"a": {"b": 1}}),
+                  (name, {"a": {"b": far}}, {"a": {"b": 1}}), (name, [near], (1,)), (name, True, 1), (name, 1, 1.0),
+                  (name, "1", 1), (name, [1, 2], [1, 2, 3]), (name, {1: "x"}, {1: "X."}), (name, {1: "x", 2: "y"}, {1: "x"})]
     out = []
     for name, l, r in pairs:
         for w in WRAPS:
@@ -765,7 +829,7 @@ def search(rng, tier, broken, corr):
                 opts = "".join(", %s=%r" % (k, kw[k]) for k in ("exact", "delta", "spelling")
                                if kw.get(k) not in (None, False))
                 what = "%s(%s%s%s) [%s] is %s but the relation %s" % (
-                    name, _short(a), "" if b is None else ", " + _short(b), opts, case["wrap"], real,
+                    name, _short(a), "" if name in ac.UNARY else ", " + _short(b), opts, case["wrap"], real,
                     "holds" if want == "silent" else "does not hold / cannot be evaluated")
                 best[key] = (size, Failure(sig, what, {"case": d, "real": real, "expected": want}))
     # unit_test
@@ -787,7 +851,8 @@ def search(rng, tier, broken, corr):
             if key not in best or size < best[key][0]:
                 rows = [[j, None if s is None else P.specs[s], P.specs[e]] for j, s, e in case["rows"]]
                 best[key] = (size, Failure(sig, "unit_test on %d cases returned %s, expected %s" % (
-                    len(case["rows"]), real, want), {"unit_test_rows": rows, "real": real, "expected": want}))
+                    len(case["rows"]), real, want), {"unit_test_rows": rows, "partial_credit": bool(case.get("partial")),
+                                                     "real": real, "expected": want}))
     # assert_type
     for vi, w, name, real, want in run_type_cases():
         info["evaluations"] += 1
@@ -800,6 +865,16 @@ def search(rng, tier, broken, corr):
             if key not in best:
                 best[key] = (5000, Failure(sig, "%s(%r, %r) [%s] is %s, expected %s" % (name, v, t, w, real, want),
                                         {"type_case": vi, "wrap": w, "assertion": name, "real": real, "expected": want}))
+    for label, w, name, real, want, shp in run_class_type_cases():
+        info["evaluations"] += 1
+        if real != want:
+            sig = {"assertion": name, "kind": ("escapes" if real.startswith("escapes") else
+                                               ("false-pass" if real == "silent" else "false-fail")), "type": shp}
+            key = json.dumps(sig, sort_keys=True)
+            if key not in best:
+                best[key] = (5000, Failure(sig, "%s(%s) [%s] is %s, expected %s" % (name, label, w, real, want),
+                                           {"class_type_case": label, "wrap": w, "assertion": name, "real": real,
+                                            "expected": want}))
     info["distinct_nontrivial"] = len(nt)
     info["samples"] = [json.loads(x) for x in list(nt)[:2]]
     failures = [f for _, f in sorted(best.values(), key=lambda x: x[0])]
@@ -847,13 +922,28 @@ def replay(payload):
         print("real     :", real)
         print("property :", rp["expected"])
         return 0 if real == rp["expected"] else 1
+    if "class_type_case" in rp:
+        ac.setup()
+        for label, v, t, conforms, shp in class_type_cases():
+            if label == rp["class_type_case"]:
+                a = ac.proxy_of(v) if rp["wrap"] == "p" and v is not None else v
+                real = ac.run_real(rp["assertion"], a, t)
+                print("case     : %s(%s) [%s]" % (rp["assertion"], label, rp["wrap"]))
+                print("real     :", real)
+                print("property :", rp["expected"])
+                return 0 if real == rp["expected"] else 1
+        print("unknown class_type_case", rp["class_type_case"])
+        return 2
     if "unit_test_rows" in rp:
         ac.setup()
         sb = ac.get_sandbox()
         rows = rp["unit_test_rows"]
         sb.data["TABLE"] = {j: ac.build(s) for j, s, _ in rows if s is not None}
-        ok = ac.unit_test("table", *[([j], ac.build(e)) for j, _, e in rows])
-        print("real     : returned", ok)
+        extra = {"partial_credit": True} if rp.get("partial_credit") else {}
+        ok = ac.unit_test("table", *[([j], ac.build(e)) for j, _, e in rows], **extra)
+        g = [f for f in ac.MAIN_REPORT.feedback + ac.MAIN_REPORT.ignored_feedback if type(f).__name__ == "unit_test"]
+        print("real     : returned", ok, "success_count", g[0].fields.get("success_count") if g else None,
+              "total_count", g[0].fields.get("total_count") if g else None)
         print("property :", rp["expected"])
         return 0
     print(json.dumps(payload, indent=1)[:3000])
